@@ -268,6 +268,14 @@ def current(for_reference=False):
     return out
 
 
+import re as _re_q
+_ATOM = _re_q.compile(r"((?:_parse_\w+|_try_parse_\w+|new:\w+|newvar\([^()]*\)|[A-Za-z_][\w.]*\(\.\.\.\))#\d+\+?|#\(i[+-]\d+\)|tok\{[A-Z0-9_,]+\})(?!@)")
+
+
+def _qualify_atoms(text, method):
+    return _ATOM.sub(lambda m_: m_.group(1) + "@" + method, text)
+
+
 def _resolve_params(out):
     """Data handed to a private production / builder through a parameter is followed into the callee: every `param:#i` of a callee whose call
     sites are recorded is replaced by the values the callers pass (one alternative each), and the argument then disappears from the call
@@ -298,7 +306,11 @@ def _resolve_params(out):
                 for f_, vals in fa.items():
                     mm = re.fullmatch(r"p(\d+)(@coord)?", f_)
                     if mm:
-                        passed.setdefault((callee, int(mm.group(1))), set()).update(vals)
+                        # the atoms of a value (call results, constructed nodes, tokens - everything that carries an ordinal) keep the name of the caller
+                        # they come from: ordinals are relative to the caller's paths, and the same text from two callers must not merge (a new
+                        # alternative from one caller would hide behind the other's).  Wrappers around atoms (coord(...), .attr, [i]) are not
+                        # marked, so computing them on either side of the call boundary reads the same
+                        passed.setdefault((callee, int(mm.group(1))), set()).update(_qualify_atoms(v, m) for v in vals)
         if not passed:
             return
         changed = False
